@@ -195,7 +195,40 @@ class Poly:
 
     # ---------------------------------------------------------------- ranges
     def range(self, facts=None):
-        """interval [lo, hi] (None = unbounded) by interval arithmetic over the atoms."""
+        """interval [lo, hi] (None = unbounded): interval arithmetic over the atoms, after a
+        case split over (at most 4) boolean atoms that multiply non-boolean ones (if-then-else
+        shaped polynomials)."""
+        sel = []
+        for m in self.terms:
+            if len(m) >= 2 and any(not is_bool_atom(a) for a in m):
+                for a in m:
+                    if is_bool_atom(a) and a not in sel:
+                        sel.append(a)
+        if sel and len(sel) <= 4:
+            lo = hi = None
+            first = True
+            for mask in range(1 << len(sel)):
+                asg = {}
+                skip = False
+                for i, a in enumerate(sel):
+                    v = (mask >> i) & 1
+                    if facts is not None and a in facts.known and facts.known[a] != v:
+                        skip = True
+                        break
+                    asg[a] = v
+                if skip:
+                    continue
+                l2, h2 = self.subst(asg)._range0(facts)
+                if first:
+                    lo, hi, first = l2, h2, False
+                else:
+                    lo = None if (lo is None or l2 is None) else min(lo, l2)
+                    hi = None if (hi is None or h2 is None) else max(hi, h2)
+            if not first:
+                return (lo, hi)
+        return self._range0(facts)
+
+    def _range0(self, facts=None):
         lo = hi = 0
         for m, c in self.terms.items():
             mlo, mhi = 1, 1
@@ -307,6 +340,8 @@ def ge0(p, facts=None):
         return ONE
     if hi is not None and hi < 0:
         return ZERO
+    if lo == -1 and hi == 0:
+        return p + 1  # p + 1 is 0/1-valued and p >= 0 <=> p + 1 == 1
     q = _canon_ge(p)
     # choose between q >= 0 and its complement -q-1 >= 0 a canonical representative:
     # the one whose first non-constant monomial (in sorted order) has a positive coefficient
